@@ -787,3 +787,73 @@ def hashing_programs(rng, bw, n, with_storage):
         a.op("STOP")
         out.append(a.assemble())
     return out
+
+
+def hostile_programs(rng, bw, n):
+    """attacker-style inputs: boundary constants used as offsets, sizes, shifts, jump targets, slot arithmetic and
+    mapping projections; truncated trailing PUSHes; raw random bytes; deep DUP/MUL towers; SLOAD towers"""
+    out = []
+    big = [2 ** 64 - 1, 2 ** 64, 2 ** 63, 2 ** 56, 2 ** 56 - 1, 2 ** 32, 2 ** 255, 2 ** 256 - 1, 2 ** 256 - 32, 2 ** 248, 255, 256, 257, 0]
+    for _ in range(n):
+        kind = rng.randrange(12)
+        a = Asm()
+        if kind == 0:
+            out.append(bytes(rng.randrange(256) for _ in range(rng.choice([1, 2, 5, 20, 100, 400]))))
+            continue
+        if kind == 1:      # memory / copy operations with extreme offsets and sizes
+            for _ in range(rng.randrange(1, 5)):
+                opn = rng.choice(["SHA3", "MLOAD", "MSTORE", "MSTORE8", "CALLDATACOPY", "CODECOPY", "RETURNDATACOPY", "EXTCODECOPY",
+                                  "RETURN", "REVERT", "LOG0", "LOG2", "CREATE", "CREATE2", "CALL", "STATICCALL", "DELEGATECALL", "CALLCODE"])
+                need = ARITY.get(opn, (2, 0))[0] if opn in ARITY else {"RETURN": 2, "REVERT": 2, "LOG0": 2, "LOG2": 4}[opn]
+                for _ in range(need):
+                    a.push(rng.choice(big) if rng.random() < 0.7 else rng.choice(bw))
+                a.op(opn)
+                if opn in ("SHA3", "MLOAD", "CREATE", "CREATE2", "CALL", "STATICCALL", "DELEGATECALL", "CALLCODE"):
+                    a.push(rng.randrange(4)).op("SSTORE")
+        elif kind == 2:    # shifts / exponent / byte with extreme amounts reaching folds (jump targets, memory offsets)
+            a.push(rng.choice(bw)).push(rng.choice(big)).op(rng.choice(["SHL", "SHR", "SAR", "EXP", "BYTE", "SIGNEXTEND", "DIV", "SDIV", "SMOD"]))
+            a.op(rng.choice(["JUMP", "MLOAD", "SLOAD", "POP"])) if rng.random() < 0.8 else a.push(0).op("MSTORE")
+            a.op("STOP")
+        elif kind == 3:    # mapping projection / slot arithmetic with huge constants
+            a.push(rng.choice(big)).push(0x20).op("MSTORE").push(4).op("CALLDATALOAD").push(0).op("MSTORE").push(0x40).push(0).op("SHA3")
+            a.push(rng.choice(big)).op(rng.choice(["ADD", "MUL", "SUB"])).op("SLOAD").op("POP")
+            a.push(rng.choice(big)).op("CALLDATALOAD").push(rng.choice(big)).op("SSTORE")
+        elif kind == 4:    # mask-and-shift with extreme positions
+            out.append(mask_shift_programs(rng, bw, 1)[0])
+            continue
+        elif kind == 5:    # truncated trailing PUSH after ordinary code
+            a.raw(random_program(rng, bw, n_ops=8, hostile=0.1))
+            nb = rng.randrange(1, 33)
+            a.raw([0x5f + nb] + [rng.randrange(256) for _ in range(rng.randrange(0, nb))])
+        elif kind == 6:    # value towers
+            a.push(3)
+            for _ in range(rng.choice([8, 20, 70, 300])):
+                a.raw([0x80]).op(rng.choice(["MUL", "ADD", "EXP", "SHL"]))
+            a.push(0).op("SSTORE")
+        elif kind == 7:    # SLOAD / SHA3 towers
+            a.push(rng.choice(big))
+            for _ in range(rng.choice([4, 16, 40, 80])):
+                a.op("SLOAD") if rng.random() < 0.7 else a.push(0).op("MSTORE").push(0x20).push(0).op("SHA3")
+            a.push(1).op("SSTORE")
+        elif kind == 8:    # call-data sizes and offsets
+            a.push(rng.choice(big)).push(rng.choice(big)).push(rng.choice(big)).op("CALLDATACOPY")
+            a.push(rng.choice(big)).op("CALLDATALOAD").push(rng.choice(big)).op("AND").push(0).op("SSTORE")
+        elif kind == 9:    # stack overflow loop
+            a.label("L").push(1).push(1).push(1).push_label("L").op("JUMP")
+        elif kind == 10:   # mutated real contract
+            real = real_contracts()
+            if real:
+                c = bytearray(bytes.fromhex(rng.choice(real)[1]))
+                for _ in range(rng.randrange(1, 8)):
+                    i = rng.randrange(len(c))
+                    c[i] = rng.choice([0xff, 0x00, 0x7f, 0x1b, 0x20, 0x54, rng.randrange(256)])
+                if rng.random() < 0.3:
+                    c = c[:rng.randrange(1, len(c))]
+                out.append(bytes(c))
+                continue
+        else:
+            a.raw(random_program(rng, bw, n_ops=rng.choice([10, 40]), hostile=0.3))
+        if rng.random() < 0.5:
+            a.op("STOP")
+        out.append(a.assemble() or b"\x00")
+    return out
